@@ -16,23 +16,27 @@ class ThreadsimProp:
     wall_caps = {"quick": 170, "thorough": 1500}
     schedules_per_workload = 4
     real_components = [
-        "nrepl::Connection, handle_message, dispatch_to_session, session_worker, handle_eval / handle_load_file / "
-        "eval_code_in_namespace, spawn_output_flusher, flush_output_buffer, sigint_watchdog, handle_completions, "
-        "handle_lookup, read_message, write_message, and the whole evaluator - as real threads (coroutines) whose every "
-        "spawn, send, recv, recv_timeout, join, sleep and evaluation step is scheduled by the seeded shuttle scheduler",
+        "nrepl::serve_connection (read/dispatch loop and shutdown sequence), writer_thread, Connection, handle_message, "
+        "dispatch_to_session, session_worker, handle_eval / handle_load_file / eval_code_in_namespace, "
+        "spawn_output_flusher, flush_output_buffer, sigint_watchdog, handle_completions, handle_lookup, read_message, "
+        "write_message, and the whole evaluator - as real threads (coroutines) whose every spawn, send, recv, "
+        "recv_timeout, join, sleep, blocking socket read and evaluation step is scheduled by the seeded shuttle "
+        "scheduler; one or two connections served concurrently",
     ]
     stub_components = [
-        "TcpListener accept loop (run_nrepl) - not executed",
-        "serve_connection's read/dispatch/shutdown loop - re-enacted by the simulator's reader task (same calls, same order)",
-        "writer_thread's recv/write loop - re-enacted by the simulator's writer task over a fault-injecting Write",
-        "TcpStream - replaced by an in-memory byte queue with injected Interrupted errors, short writes and EOF mid-message",
+        "TcpListener accept loop (run_nrepl) - not executed; the scenario spawns serve_connection per connection as it does",
+        "TcpStream - replaced (hook H5) by an in-memory endpoint: client bytes arrive in the chunks a simulated client "
+        "thread sends (blocking read = scheduling point), with injected Interrupted errors, short reads and writes, EOF "
+        "between or inside messages, and EPIPE after a chosen number of responses",
         "timers - shuttle has no time: recv_timeout on an empty queue expires when a draw from shuttle::rand says so "
         "(per-run probability), sleep ends when the scheduler next runs the thread",
         "the two std::sync::Mutex<String> output buffers and the AtomicBool flags stay std types (no scheduling point "
         "inside their critical sections; all accesses sit between shuttle scheduling points)",
+        "the real clock behind `eval-msec` is not simulated; the field is zeroed in the recorded wire log and no fault "
+        "decision depends on a message's length",
     ]
     assumptions = [
-        "channel send order on the response channel is wire order (the real writer is a FIFO loop over that channel)",
+        "the wire log is what the simulated socket received from the real writer_thread, decoded message by message",
         "nondeterministic timer expiry over-approximates real time (a 100 ms timer may fire between any two steps of "
         "any other thread); nothing is claimed about promptness in milliseconds",
         "one seed = one schedule: RandomScheduler/PctScheduler::new_from_seed, timer and codec decisions drawn from "
@@ -78,9 +82,11 @@ class ThreadsimProp:
                 m = e["msg"]
                 sig.append(("W", m.get("id"), "done" if "status" in m else ("out" if "out" in m else "x")))
             elif k in ("I", "R"):
-                sig.append((k, e.get("session") or e.get("thread") or e.get("ptr")))
+                sig.append((k, e.get("_conn"), e.get("_sess") or e.get("thread")))
+            elif k == "SESSION":
+                continue
             else:
-                sig.append((k,))
+                sig.append((k, e.get("conn")))
         # position of flag events relative to evaluation checks
         n_c = 0
         rel = []
@@ -99,7 +105,8 @@ class ThreadsimProp:
         def bump(k, n=1):
             stats[k] = stats.get(k, 0) + n
 
-        wl_hash = common.stable_hash(case["sc"]["ops"])
+        wl_hash = common.stable_hash([c["ops"] for c in case["sc"]["conns"]])
+        all_ops = [o for c in case["sc"]["conns"] for o in c["ops"]]
         for sched in case["scheds"]:
             run, viol = self.run_one(ex, case["sc"], case["reqs"], sched)
             out["evaluations"] += 1
@@ -110,6 +117,10 @@ class ThreadsimProp:
                 bump("fault:timer_expiry", res["timers_fired"])
                 bump("fault:codec_interrupted", res["codec_interrupted"])
                 bump("fault:codec_short_write", res["codec_short_writes"])
+                bump("fault:codec_short_read", res.get("codec_short_reads", 0))
+                bump("connections", len(case["sc"]["conns"]))
+                if len(case["sc"]["conns"]) > 1:
+                    bump("probe:two_connections_served_concurrently")
                 bump("sched:" + sched["kind"])
                 bump("virtual_ms", res["virtual_ms"])
                 bump("threads_spawned", res["spawns"])
@@ -120,10 +131,16 @@ class ThreadsimProp:
                         bump("fault:sigint")
                     elif e["k"] == "WRITER-DIED":
                         bump("fault:writer_died")
-                    elif e["k"] == "READ-ERROR":
+                    elif e["k"] == "CLIENT-SEND" and e.get("cut"):
                         bump("fault:client_eof_mid_message")
-                if any(o.get("op") == "disconnect" for o in case["sc"]["ops"]):
+                    elif e["k"] == "CLIENT-WAITED":
+                        bump("client_waited_for_done" if e.get("satisfied") else "client_wait_gave_up")
+                if any(o.get("op") == "disconnect" for o in all_ops):
                     bump("fault:client_disconnect")
+                if any(o.get("chunks") for o in all_ops):
+                    bump("fault:request_delivered_in_chunks")
+                if any(o.get("op") == "raw" for o in all_ops):
+                    bump("fault:non_dict_message")
                 self.probes(run, bump)
                 if res["outcome"] == "ok" and not run.writer_died:
                     out["nontrivial"].append(mix(wl_hash, self.signature(run)))
@@ -138,8 +155,8 @@ class ThreadsimProp:
             if out["violations"]:
                 break
         if out["sample"] is None:
-            out["sample"] = {"ops": [o.get("fields", o["op"]) for o in case["sc"]["ops"]][:8],
-                             "watchdog": case["sc"]["watchdog"], "codec": case["sc"]["codec"],
+            out["sample"] = {"connections": [{"ops": [o.get("fields", o["op"]) for o in c["ops"]][:8], "codec": c["codec"]}
+                                             for c in case["sc"]["conns"]],
                              "timer_permille": case["sc"]["timer_permille"], "schedules": case["scheds"]}
         return out
 
@@ -197,32 +214,36 @@ class ThreadsimProp:
                     return sched
             return None
 
-        i = len(sc["ops"]) - 1
-        while i >= 0 and budget[0] > 0:
-            op = sc["ops"][i]
-            if op.get("fields", {}).get("op") == "clone":
-                i -= 1
-                continue
-            sc_c = json.loads(json.dumps(sc))
-            del sc_c["ops"][i]
-            reqs_c = []
-            for m in reqs:
-                if m["op_index"] == i:
+        for ci in range(len(sc["conns"])):
+            i = len(sc["conns"][ci]["ops"]) - 1
+            while i >= 0 and budget[0] > 0:
+                op = sc["conns"][ci]["ops"][i]
+                if op.get("fields", {}).get("op") == "clone":
+                    i -= 1
                     continue
-                m2 = dict(m)
-                if m2["op_index"] > i:
-                    m2["op_index"] -= 1
-                reqs_c.append(m2)
-            s = find(sc_c, reqs_c)
-            if s:
-                sc, reqs, best_sched = sc_c, reqs_c, s
-            i -= 1
+                sc_c = json.loads(json.dumps(sc))
+                del sc_c["conns"][ci]["ops"][i]
+                reqs_c = []
+                for m in reqs:
+                    if m.get("conn", 0) == ci:
+                        if m["op_index"] == i:
+                            continue
+                        m2 = dict(m)
+                        if m2["op_index"] > i:
+                            m2["op_index"] -= 1
+                        reqs_c.append(m2)
+                    else:
+                        reqs_c.append(m)
+                s = find(sc_c, reqs_c)
+                if s:
+                    sc, reqs, best_sched = sc_c, reqs_c, s
+                i -= 1
         cand = {"sc": sc, "reqs": reqs, "sched": best_sched}
         a = self.replay(ctx, cand)
         b = self.replay(ctx, cand)
         if a and b and a[0]["class"] == cls and a[0]["detail"] == b[0]["detail"]:
             nv = dict(v)
             nv["replay"] = cand
-            nv["detail"] = a[0]["detail"] + " | minimised ops: " + json.dumps([o.get("fields", o["op"]) for o in sc["ops"]])[:900] + f" sched={best_sched}"
+            nv["detail"] = a[0]["detail"] + " | minimised ops: " + json.dumps([[o.get("fields", o["op"]) for o in c["ops"]] for c in sc["conns"]])[:900] + f" sched={best_sched}"
             return nv
         return v
